@@ -47,6 +47,7 @@ def dags(tier):
     # ACCUMULATE over the whole greedy envelope (an inconsistent state popped before a consistent one)
     F.append(Skel('d5-wide', [0, 1, 2, 3, 'g'], {0: ('a',), 1: ('a',), 2: ('a',), 3: ('a',), 'g': ('a',)},
                   {(0, 'a'): (1, 2, 3), (1, 'a'): ('g',), (2, 'a'): ('g',), (3, 'a'): ('g',), ('g', 'a'): ('g',)}, absorbing=['g'], init=[0]))
+    F.append(M.relabel_actions(F[0], {'a': 1, 'b': 0}, 'd3-falsy-actions'))      # action 0 is legal, and not first in its state's order
     if tier == 'thorough':
         F.append(Skel('d4-branch', [0, 1, 2, 'g'], {0: ('a', 'b'), 1: ('a', 'b'), 2: ('a',), 'g': ('a',)},
                       {(0, 'a'): (1, 2), (0, 'b'): (2,), (1, 'a'): ('g', 2), (1, 'b'): ('g',), (2, 'a'): ('g',), ('g', 'a'): ('g',)}, absorbing=['g'], init=[0, 1]))
@@ -82,8 +83,8 @@ def facades(uses, budget):
         yield
 
 
-def h_lrtdp(sk, shuffle, slack_mode, tied, iterations=50):
-    mdp, v = M.make_mdp(sk, gamma='sym', numeric='generic', nseed=2)
+def h_lrtdp(sk, shuffle, slack_mode, tied, iterations=50, gamma='sym'):
+    mdp, v = M.make_mdp(sk, gamma=gamma, numeric='generic', nseed=2)      # gamma='one': discount exactly 1.0 (the skeletons are acyclic)
     g = v.gamma
     if tied:      # exact ties between actions (the interesting case for tie-breaking orders)
         for s in sk.states:
@@ -270,6 +271,8 @@ def tasks(tier, seed):
                     its = 50 if len(sk.init) == 1 else 5
                     T.append(Task('plan_on/%s/%s/%s%s' % (sk.name, 'shuffle' if shuffle else 'ordered', slack, '/tied' if tied else ''), h_lrtdp, (sk, shuffle, slack, tied, its),
                                   tier='B', max_paths=12000, deadline_s=500))
+        if sk.name in ('d3', 'd5-wide'):
+            T.append(Task('plan_on/%s/ordered/slack/undiscounted' % sk.name, h_lrtdp, (sk, False, 'slack', False, 50, 'one'), tier='B', max_paths=12000, deadline_s=500))
         T.append(Task('units/%s' % sk.name, h_unit, (sk,), tier='B'))
     T.append(Task('U/Q/abstract-next-state-distribution', h_Q_U, (), tier='U', note='unbounded support, uninterpreted model, symbolic discount'))
     T.append(Task('rt/real-seeds-cyclic', rt_real, (seed, 40 if tier == 'quick' else 300), tier='R', kind='rt'))
